@@ -118,7 +118,7 @@ func c14Call(c *core.Ctx, t *c14Target, k *core.Case) {
 		if r := recover(); r != nil {
 			st := debug.Stack()
 			frame := core.RepoFrame(st)
-			kk := &core.Case{Oracle: "one", Target: t.name, B: [][]byte{cloneB(k.B[0])}}
+			kk := &core.Case{Oracle: "one", Target: t.name, B: [][]byte{cloneB(k.B[0])}, I: k.I}
 			c.Fail(kk, "panic:"+core.PanicClass(r)+"@"+frame, fmt.Sprintf("%s on %x (%q): panic: %v", t.name, k.B[0], k.B[0], r))
 		}
 	}()
@@ -134,6 +134,10 @@ func c14One(c *core.Ctx, k *core.Case) {
 		return
 	}
 	c.Eval(1)
+	if len(k.I) > 0 && k.I[0]&2 == 2 { // with the library logging at Trace level
+		withVerboseLogging(func() { c14Call(c, t, k) })
+		return
+	}
 	c14Call(c, t, k)
 }
 
@@ -415,6 +419,18 @@ func init() {
 				}
 			}})
 		}
+		us = append(us, core.Unit{Name: "verbose-logging", Weight: 30, Run: func(c *core.Ctx) {
+			for ti := range c14Targets {
+				t := &c14Targets[ti]
+				for i := 0; i < c.Pick(400, 5000); i++ {
+					in := c14Grammar(c.R, t, i)
+					if i < 40 {
+						in = c.R.Bytes(i % 5)
+					}
+					c.Do(&core.Case{Oracle: "one", Target: t.name, B: [][]byte{in}, I: []int64{2}})
+				}
+			}
+		}})
 		return us
 	}
 	core.Register(p)
